@@ -213,13 +213,14 @@ class Checker:
             res.probe("batch_size_gt_n")
 
     # ---- decorated models: the recorded indices must be the true ids when the gradients are computed
-    def on_compute_grads(self):
+    def on_compute_grads(self, Xb=None):
         model = self.h.model
         idx = getattr(model._batchify, "indices", None)
-        if idx is None or any(i < 0 for i in self.h.cur_ids):
+        true_ids = self.h.resolve(Xb)[2]          # the samples of the batch the gradient is computed on NOW
+        if idx is None or any(i < 0 for i in true_ids):
             return
-        if list(idx) != list(self.h.cur_ids):
-            self.res.violate("C10:indices", {"recorded": [int(i) for i in idx], "true": self.h.cur_ids})
+        if list(idx) != list(true_ids):
+            self.res.violate("C10:indices", {"recorded": [int(i) for i in idx], "true": true_ids})
         else:
             self.res.probe("decorated_steps_checked")
 
@@ -311,7 +312,7 @@ def execute(record):
             inner_cg = model._compute_grads
 
             def outer_cg(Xb, y_pred, gradient):
-                chk.on_compute_grads()
+                chk.on_compute_grads(Xb)
                 return inner_cg(Xb, y_pred, gradient)
             model._compute_grads = outer_cg
         # predict_proba spy for the validation blocks
